@@ -22,6 +22,14 @@ def one(pid):
     except Exception:
         res = {"property": pid, "error": p.stdout[-500:]}
     res["seedtest_exit"] = p.returncode
+    rp = os.path.join(V, "seeded", pid, "result.json")
+    if "baseline_with_change" not in res and os.path.exists(rp):      # --skip-baseline: keep the earlier baseline verdict
+        try:
+            old = json.load(open(rp))
+            if old.get("baseline_with_change"):
+                res["baseline_with_change"] = old["baseline_with_change"]
+        except Exception:
+            pass
     with open(os.path.join(V, "seeded", pid, "result.json"), "w") as f:
         json.dump(res, f, indent=1)
     return pid, res
